@@ -1,8 +1,355 @@
 import FtDriver.Json
 open Lean (Json)
 namespace FtDriver
-open Ft
+namespace C15
+open Ft Ft.C15
 
-def handleC15 (_j : Json) : Except String Verdict := throw "C15: not implemented"
+/-! ### JSON forms (dicts are printed sorted by key: insertion order is not observable) -/
+
+def c15_sortBy {α : Type} (key : α → String) (l : List α) : List α :=
+  l.mergeSort (fun a b => key a ≤ key b)
+
+def c15_rowJson : Row → Json
+  | .hdr cols => Json.mkObj [("h", jList (cols.map Json.str))]
+  | .dat vals => jInts vals
+
+def c15_parseRow (j : Json) : Except String Row :=
+  match j.getObjVal? "h" with
+  | .ok h => do pure (.hdr (← (← asList h).mapM (·.getStr?)))
+  | .error _ => do pure (.dat (← asInts j))
+
+def c15_optJson {α : Type} (f : α → Json) : Option α → Json
+  | none => Json.null
+  | some a => f a
+
+def c15_metricsJson (m : Dict (Dict Int)) : Json :=
+  jList ((c15_sortBy (·.1) m).map (fun e =>
+    jList [Json.str e.1, jList ((c15_sortBy (·.1) e.2).map (fun x => jList [Json.str x.1, jInt x.2]))]))
+
+def c15_retJson : MRet → Json
+  | .unit => Json.null
+  | .nat n => jNat n
+  | .bool b => Json.bool b
+  | .rows l => jList (l.map c15_rowJson)
+  | .iters l => c15_optJson jInts l
+  | .dump m => c15_optJson c15_metricsJson m
+
+def c15_stateJson (s : MState) : Json :=
+  Json.mkObj [
+    ("arm", jList ((c15_sortBy (·.1) s.allRankMatches).map (fun e =>
+      jList [Json.str e.1, jList ((c15_sortBy id e.2).map Json.str)]))),
+    ("collecting", Json.bool s.collecting),
+    ("fl", jList ((c15_sortBy (·.1) s.fiberLabel).map (fun e => jList [Json.str e.1, jNat e.2]))),
+    ("iteration", c15_optJson jInts s.iteration),
+    ("lo", c15_optJson (fun lo => jList ((c15_sortBy (·.1) lo).map (fun e => jList [Json.str e.1, jNat e.2]))) s.lineOrder),
+    ("lp", c15_optJson (fun l => jList (l.map Json.str)) s.loopOrder),
+    ("metrics", c15_optJson c15_metricsJson s.metrics),
+    ("ncu", jNat s.numCachedUses),
+    ("point", c15_optJson jInts s.point),
+    ("pfx", c15_optJson Json.str s.pfx),
+    ("rm", jList ((c15_sortBy (·.1) s.rankMatches).map (fun e => jList [Json.str e.1, Json.str e.2]))),
+    ("rf", jList ((c15_sortBy id s.rankFlatten).map Json.str)),
+    ("traces", jList ((c15_sortBy (fun e => e.1.1 ++ "\x00" ++ e.1.2) s.traces).map (fun e =>
+      jList [Json.str e.1.1, Json.str e.1.2, c15_optJson (fun l => jList (l.map c15_rowJson)) e.2.file,
+             c15_optJson (fun l => jList (l.map c15_rowJson)) e.2.mem, Json.bool e.2.started]))),
+    ("fs", jList ((c15_sortBy (fun e => e.1.1 ++ "\x00" ++ e.1.2.1 ++ "\x00" ++ e.1.2.2) s.fs).map (fun e =>
+      jList [Json.str e.1.1, Json.str e.1.2.1, Json.str e.1.2.2, jList (e.2.map c15_rowJson)])))]
+
+def c15_optStr (j : Json) : Except String (Option String) :=
+  if j.isNull then pure none else do pure (some (← j.getStr?))
+
+def c15_parseOp (j : Json) : Except String MOp := do
+  match (← asList j) with
+  | [n] =>
+    match (← n.getStr?) with
+    | "endCollect" => pure .endCollect
+    | "getIter" => pure .getIter
+    | "isCollecting" => pure .isCollecting
+    | "dump" => pure .dump
+    | s => throw s!"op {s}"
+  | [n, a] =>
+    match (← n.getStr?) with
+    | "beginCollect" => pure (.beginCollect (← c15_optStr a))
+    | "registerRank" => pure (.registerRank (← a.getStr?))
+    | "incIter" => pure (.incIter (← a.getStr?))
+    | "endIter" => pure (.endIter (← a.getStr?))
+    | "getLabel" => pure (.getLabel (← a.getStr?))
+    | "getIndex" => pure (.getIndex (← a.getStr?))
+    | "setNumCachedUses" => pure (.setNumCachedUses (← a.getNat?))
+    | "associateShape" => pure (.associateShape (← a.getStr?))
+    | s => throw s!"op {s}"
+  | [n, a, b] =>
+    match (← n.getStr?) with
+    | "isTraced" => pure (.isTraced (← a.getStr?) (← b.getStr?))
+    | "matchRanks" => pure (.matchRanks (← a.getStr?) (← b.getStr?))
+    | "consumeTrace" => pure (.consumeTrace (← a.getStr?) (← b.getStr?))
+    | s => throw s!"op {s}"
+  | [n, a, b, c] =>
+    match (← n.getStr?) with
+    | "incCount" => pure (.incCount (← a.getStr?) (← b.getStr?) (← c.getInt?))
+    | "trace" => pure (.trace (← a.getStr?) (← b.getStr?) (← c.getBool?))
+    | s => throw s!"op {s}"
+  | [n, a, b, c, d, e] =>
+    match (← n.getStr?) with
+    | "addUse" =>
+      let it ← (if e.isNull then pure none else do pure (some (← asInts e)))
+      pure (.addUse (← a.getStr?) (← b.getInt?) (← c.getInt?) (← d.getStr?) it)
+    | s => throw s!"op {s}"
+  | _ => throw "op arity"
+
+/-- run calls one by one; stops at the first one the model rejects -/
+def c15_runList : List MOp → MState → List MRet → Nat → List MRet × MState × Int
+  | [], s, acc, _ => (acc.reverse, s, -1)
+  | op :: rest, s, acc, i =>
+    match step op s with
+    | some (r, s') => c15_runList rest s' (r :: acc) (i + 1)
+    | none => (acc.reverse, s, i)
+
+/-! ### executable specs evaluated on the implementation's observations -/
+
+/-- counters a session must show: the sum of its `incCount` calls, per stripped line and metric -/
+def c15_expectCounts (ops : List MOp) : Dict (Dict Int) :=
+  ops.foldl (fun m op => match op with
+    | .incCount l k n =>
+      let l := strip l
+      let inner := (dget m l).getD []
+      dset m l (dset inner k ((dget inner k).getD 0 + n))
+    | _ => m) []
+
+def c15_lastSession (ops : List MOp) : List MOp :=
+  ops.foldl (fun acc op => match op with | .beginCollect _ => [op] | _ => acc ++ [op]) []
+
+/-- a structured session: `beginCollect(p)`, trace declarations (files, each once), then only
+    calls a kernel makes, then `endCollect` -/
+def c15_structured (sess : List MOp) : Option (String × List TKey × List MOp) :=
+  match sess with
+  | .beginCollect (some p) :: rest =>
+    let decls := rest.takeWhile (fun o => match o with | .trace _ _ false => true | _ => false)
+    let body := rest.drop decls.length
+    let keys := decls.filterMap (fun o => match o with | .trace r t _ => some (r, t) | _ => none)
+    match body.getLast? with
+    | some .endCollect =>
+      let b := body.dropLast
+      if keys.eraseDups.length == keys.length && b.all (fun o => match o with
+        | .registerRank _ | .addUse _ _ _ _ _ | .incIter _ | .endIter _ | .getLabel _ | .getIndex _
+        | .getIter | .incCount _ _ _ | .isCollecting | .isTraced _ _ | .dump => true
+        | _ => false) then some (p, keys, b) else none
+    | _ => none
+  | _ => none
+
+def c15_fsOf (st : Json) : Except String (List (FKey × List Row)) := do
+  (← fArr st "fs").mapM (fun e => do
+    match (← asList e) with
+    | [p, r, t, rows] => do
+      pure (((← p.getStr?), (← r.getStr?), (← t.getStr?)), (← (← asList rows).mapM c15_parseRow))
+    | _ => throw "fs row")
+
+def c15_dropKeys (j : Json) (ks : List String) : Json :=
+  match j with
+  | .obj kvs => Json.mkObj ((kvs.toList.filter (fun (e : String × Json) => !ks.contains e.1)))
+  | _ => j
+
+def handleApi (j : Json) : Except String Verdict := do
+  let ops ← (← fArr j "ops").mapM c15_parseOp
+  let sessStart := fIntD j "sess_start" (-1)
+  let impl ← field j "impl"
+  let irets ← fArr impl "rets"
+  let ierr ← fInt impl "err_at"
+  let ist ← field impl "state"
+  let (mrets, ms, merr) := c15_runList ops MState.init [] 0
+  let mretsJ := jList (mrets.map c15_retJson)
+  let agreeR := mretsJ.compress == (jList irets).compress
+  let agreeE := merr == ierr
+  let agreeS := (c15_stateJson ms).compress == ist.compress
+  let mut why := (if !agreeR then "returned values differ from model; " else "") ++
+    (if !agreeE then s!"first rejected call: model {merr} impl {ierr}; " else "") ++
+    (if !agreeS then "class attributes / files differ from model; " else "")
+  let mut spec := true
+  let mut tags : List String := []
+  if ierr < 0 then
+    -- exact counters: what dump() shows is the sum of the incCount calls of the last session
+    let sess := c15_lastSession ops
+    let begun := sess.any (fun o => match o with | .beginCollect _ => true | _ => false)
+    if begun then
+      let want := c15_metricsJson (c15_expectCounts sess)
+      let got := (ist.getObjVal? "metrics").toOption.getD Json.null
+      if want.compress != got.compress then
+        spec := false; why := why ++ "dump() is not the sum of the session's incCount calls; "
+      tags := tags ++ ["session"]
+    -- iteration counts and isolation, for a structured final session
+    if sessStart ≥ 0 then
+      let sess := ops.drop sessStart.toNat
+      match c15_structured sess with
+      | none => tags := tags ++ ["unstructured"]
+      | some (p, keys, body) =>
+        tags := tags ++ ["structured"]
+        let fs ← c15_fsOf ist
+        for (r, t) in keys do
+          let rows := (dget fs (p, r, t)).getD []
+          let uses := nUse r t body
+          if registers r body then
+            tags := tags ++ ["started"]
+            if numIters rows != uses then
+              spec := false; why := why ++ s!"numIters of {r}-{t} is {numIters rows}, addUse calls {uses}; "
+          else
+            tags := tags ++ ["never-started"]
+            if numIters rows != 0 then
+              spec := false; why := why ++ s!"stale rows: {r}-{t} never registered in this session but its file shows {numIters rows} iterations; "
+        -- isolation: the same session run in a fresh process
+        let fresh ← field impl "fresh"
+        let frets ← fArr fresh "rets"
+        let fst ← field fresh "state"
+        let ffs ← c15_fsOf fst
+        let sameRets := (jList (irets.drop sessStart.toNat)).compress == (jList frets).compress
+        let sameAttrs := (c15_dropKeys ist ["ncu", "fs"]).compress == (c15_dropKeys fst ["ncu", "fs"]).compress
+        let sameFiles := keys.all (fun (r, t) => dget fs (p, r, t) == dget ffs (p, r, t))
+        let staleKey := keys.any (fun (r, t) => dget fs (p, r, t) != dget ffs (p, r, t) && !registers r body)
+        if !sameRets then spec := false; why := why ++ "session returns differ from a fresh process; "
+        if !sameAttrs then spec := false; why := why ++ "class attributes after the session differ from a fresh process; "
+        if !sameFiles then
+          spec := false
+          why := why ++ (if staleKey then "isolation: stale rows, a traced rank never registered keeps the file of an earlier session; "
+            else "isolation: a trace file of this session differs from a fresh process; ")
+        if sessStart > 0 then tags := tags ++ ["history"]
+  else
+    tags := tags ++ ["rejected"]
+  pure { agree := agreeR && agreeE && agreeS, spec, model := c15_stateJson ms, tags, why }
+
+/-! ### kernels -/
+
+def c15_parseOperand (j : Json) : Except String Operand := do
+  let ranks ← (← fArr j "ranks").mapM (·.getStr?)
+  let t ← parseTree ranks.length (← field j "t")
+  let u := match j.getObjVal? "ushape" with
+    | .ok v => v.getNat?.toOption
+    | .error _ => none
+  pure { ranks, t := ⟨ranks.length, t⟩, uShape := u }
+
+def c15_atreeJson (a : ATree) : Json := treeToJson a.1 a.2
+
+def c15_sublist : List String → List String → Bool
+  | [], _ => true
+  | _ :: _, [] => false
+  | a :: as, b :: bs => if a == b then c15_sublist as bs else c15_sublist (a :: as) bs
+
+/-- the kernel is in the family: ranks concordant with the loop order, every loop has an operand,
+    all operand ranks are loops, operands well-formed, "U" only on a leaf rank iterated alone and
+    not an output rank -/
+def c15_inFamily (loops out : List String) (ops : List Operand) : Bool :=
+  loops.eraseDups.length == loops.length && c15_sublist out loops &&
+  ops.all (fun o => c15_sublist o.ranks loops && wfB o.t.1 o.t.2 && !o.ranks.isEmpty) &&
+  loops.all (fun v => ops.any (fun o => o.ranks.contains v)) &&
+  ops.all (fun o => match o.uShape with
+    | none => true
+    | some _ => match o.ranks.getLast? with
+      | some v => !out.contains v && (ops.filter (fun o' => o'.ranks.contains v)).length == 1
+      | none => false)
+
+def c15_getN (j : Json) (k : String) : Int := fIntD j k (-1)
+
+def handleKernel (j : Json) : Except String Verdict := do
+  let loops ← (← fArr j "loops").mapM (·.getStr?)
+  let out ← (← fArr j "out").mapM (·.getStr?)
+  let declared ← (← field j "declared").getBool?
+  let z ← parseTree out.length (← field j "z")
+  let ops ← (← fArr j "ops").mapM c15_parseOperand
+  let traces ← (← fArr j "traces").mapM (fun e => do
+    match (← asList e) with
+    | [r, t] => do pure ((← r.getStr?), (← t.getStr?))
+    | _ => throw "trace decl")
+  let hist ← (← fArr j "hist").mapM c15_parseOp
+  let p ← fStr j "pfx"
+  if !c15_inFamily loops out ops || !wfB out.length z then
+    return { agree := true, spec := true, tags := ["OUT_OF_MODEL"] }
+  let (_, s0, herr) := c15_runList hist MState.init [] 0
+  if herr ≥ 0 then return { agree := true, spec := true, tags := ["OUT_OF_MODEL"] }
+  let k : Kernel := { loops, out, declared }
+  let r := runK declared loops out ⟨out.length, z⟩ ops
+  let okAsserts := assertsOk r.2
+  let sessOps := [MOp.beginCollect (some p)] ++ traces.map (fun (rk, t) => MOp.trace rk t false) ++ callsOf r.2 ++ [MOp.endCollect]
+  let (_, sN, serr) := c15_runList sessOps s0 [] 0
+  let impl ← field j "impl"
+  let off ← field impl "off"
+  let on ← field impl "on"
+  let onErr := (on.getObjVal? "err").toOption.isSome
+  let offErr := (off.getObjVal? "err").toOption.isSome
+  let mout := c15_atreeJson (runPlain k ⟨out.length, z⟩ ops)
+  let mut why := ""
+  let mut agree := true
+  if mout.compress != off.compress then agree := false; why := why ++ "result (collection off) differs from model; "
+  if onErr == okAsserts then agree := false; why := why ++ s!"collecting run aborts: model {!okAsserts} impl {onErr}; "
+  if serr ≥ 0 then agree := false; why := why ++ s!"model rejects the kernel's own Metrics call #{serr}; "
+  let dump ← field impl "dump"
+  let wrap ← field impl "wrap"
+  let bodies ← field impl "bodies"
+  let iters ← field impl "iters"
+  let iterRanks := (traces.filter (fun e => e.2 == "iter")).map (·.1)
+  let mut spec := true
+  -- (1) transparency
+  if offErr then spec := false; why := why ++ "kernel fails with collection off; "
+  if onErr then
+    spec := false; why := why ++ "transparent: the kernel aborts with collection on (assert insert_pos is not None) but runs with collection off; "
+  else if on.compress != off.compress then
+    spec := false; why := why ++ "transparent: results with collection on and off differ; "
+  if !onErr then
+    -- agreement of the counters with the model
+    for (key, metric, ghost) in [("mul", "payload_mul", nMul r.2), ("add", "payload_add", nAdd r.2), ("update", "payload_update", nUpd r.2)] do
+      if c15_getN dump key != count sN "Compute" metric then
+        agree := false; why := why ++ s!"{metric}: model {count sN "Compute" metric} impl {c15_getN dump key}; "
+      -- (2) exact counts: dump() against the independent wrappers around the Payload operators
+      if c15_getN dump key != c15_getN wrap key then
+        spec := false; why := why ++ s!"exact: reported {metric} {c15_getN dump key}, executed {c15_getN wrap key}; "
+      if (ghost : Int) != count sN "Compute" metric then
+        agree := false; why := why ++ s!"{metric}: model counter differs from model ghost count; "
+    for v in loops do
+      if c15_getN bodies v != ((nBody v r.2 : Nat) : Int) && !(c15_getN bodies v == -1 && nBody v r.2 == 0) then
+        agree := false; why := why ++ s!"bodies at {v}: model {nBody v r.2} impl {c15_getN bodies v}; "
+    -- (3) iteration counts
+    for v in iterRanks do
+      let b := if c15_getN bodies v < 0 then 0 else c15_getN bodies v
+      let mi := numIters (fileOf sN p v "iter")
+      if c15_getN iters v != (mi : Int) then
+        agree := false; why := why ++ s!"numIters at {v}: model {mi} impl {c15_getN iters v}; "
+      if c15_getN iters v != b then
+        let stale := !registers v (callsOf r.2)
+        let isU := ops.any (fun o => o.uShape.isSome && o.ranks.getLast? == some v)
+        spec := false
+        why := why ++ (if stale then s!"numIters: stale rows, rank {v} never iterated in this session but its file shows {c15_getN iters v} iterations; "
+          else if isU then s!"numIters: format-U rank {v} ran {b} loop bodies, trace shows {c15_getN iters v}; "
+          else s!"numIters: rank {v} ran {b} loop bodies, trace shows {c15_getN iters v}; ")
+    -- (4) isolation
+    let fresh ← field impl "fresh"
+    if (← field fresh "dump").compress != dump.compress then
+      spec := false; why := why ++ "isolation: counters differ from the same kernel in a fresh process; "
+    if (← field fresh "files").compress != (← field impl "files").compress then
+      let stale := traces.any (fun (rk, _) => !registers rk (callsOf r.2))
+      spec := false
+      why := why ++ (if stale then "isolation: stale rows, a traced rank never iterated keeps the file of an earlier session; "
+        else "isolation: traces differ from the same kernel in a fresh process; ")
+  let zl := match (⟨out.length, z⟩ : ATree) with
+    | ⟨_ + 1, f⟩ => !(show List _ from f).isEmpty
+    | _ => false
+  let tags := (if r.2.any (fun e => match e with | .assertShape _ _ => true | _ => false) then ["revisit"] else []) ++
+    (if !okAsserts then ["assert-fires"] else []) ++
+    (if nAdd r.2 > 0 then ["add"] else []) ++ (if nMul r.2 > 0 then ["mul"] else []) ++
+    (if nUpd r.2 == 0 then ["no-update"] else []) ++
+    (if out.isEmpty then ["scalar-out"] else []) ++ (if zl then ["z-preloaded"] else []) ++
+    (if hist.isEmpty then ["hist-none"] else ["hist"]) ++
+    (if traces.isEmpty then ["traces-none"] else []) ++
+    (if traces.any (fun e => e.2 != "iter") then ["traces-other"] else []) ++
+    (if iterRanks.any (fun v => !registers v (callsOf r.2)) then ["traced-never-iterated"] else []) ++
+    (if iterRanks.any (fun v => registers v (callsOf r.2)) then ["traced-iterated"] else []) ++
+    (if ops.any (fun o => o.uShape.isSome) then ["format-U"] else []) ++
+    (if ops.any (fun o => (presentA o.t).isEmpty) then ["empty-operand"] else []) ++
+    [s!"loops{loops.length}", s!"ops{ops.length}"]
+  pure { agree, spec, model := mout, tags, why }
+
+end C15
+
+def handleC15 (j : Json) : Except String Verdict := do
+  match (← fStr j "kind") with
+  | "api" => C15.handleApi j
+  | "kernel" => C15.handleKernel j
+  | k => throw s!"C15: unknown kind {k}"
 
 end FtDriver
